@@ -559,7 +559,9 @@ def run(ctx):
     # ... and one item more: quick = a seed-selected fifth of the lighter types, thorough = a fixed set
     # of small types at 5 items (no ranges / trailing commas there)
     light = [t for t in ARRAYS + CHARS + STRUCTS if t not in HEAVY]
-    deep = vt.subsample(light, ctx.seed, 5) if q else DEEP5
+    # (the union type `us` is always in the deeper slice: discarding the previous member on a member
+    #  switch, D39, needs four initializers to show)
+    deep = sorted(set(vt.subsample(light, ctx.seed, 5)) | {"us"}) if q else DEEP5
     out2 = os.path.join(ctx.scratch, "beh2.ndjson")
     if q:
         generate(ctx, deep, out2, MaxItems=4, MaxDesig=2)
